@@ -162,6 +162,9 @@ class PySpec:
         self.inactive = self.tomblife = 0
         self.unit = 1
         self.topics = []
+        # how often the wild-card paths really had a choice (lands in evidence: coverage.correspondence.wildcard)
+        self.stats = {"tombstone*": 0, "tombstone* with a real choice (a marked nsqd had >= 2 topics)": 0,
+                      "lookup*": 0, "lookup* with a real choice (must != may)": 0}
         self.reset()
 
     def reset(self):
@@ -337,6 +340,65 @@ class PySpec:
         parts.append("D=" + " ".join(sorted(k + "[" + j(v) + "]" for k, v in dbg.items())))
         return " | ".join(parts)
 
+    # -- the wild-card paths: the result is a SET (one element per admissible outcome of Go's map iteration)
+    def node_of(self, p):
+        inf = self.peer[p][1]
+        return inf[0] + b":" + str(inf[4]).encode()
+
+    def tombstone_star(self, bad, node, pick_tok, now):
+        """POST /topic/tombstone?topic=*&node=N: every nsqd at address N that registered at least one topic is
+        tombstoned for EXACTLY ONE of the topics it registered; nothing else changes. `pick_tok` is what the
+        real run did: accepted iff it is such an outcome."""
+        if bad or node is None or not pick_tok.startswith("pick="):
+            return "bad-op"
+        body = pick_tok[5:]
+        pick = []
+        if body != "-":
+            for e in body.split(","):
+                p_, t_ = e.split(":")
+                pick.append((int(p_), unhex(t_)))
+        must = {p for (p, t) in self.topic_reg if p in self.peer and self.node_of(p) == node}
+        ok = (sorted(p for p, _ in pick) == sorted(must) and all((p, t) in self.topic_reg for p, t in pick))
+        if not ok:
+            return "invalid-pick: tombstoned %s ; allowed: exactly one registered topic for each of %s" % (
+                sorted((p, s_(t)) for p, t in pick), sorted(must))
+        self.stats["tombstone*"] += 1
+        if any(sum(1 for (q, _) in self.topic_reg if q == p) >= 2 for p in must):
+            self.stats["tombstone* with a real choice (a marked nsqd had >= 2 topics)"] += 1
+        for p, t in pick:
+            self.tomb[(p, t)] = now
+        return "200"
+
+    def qstar(self, obs_tok, now):
+        """GET /channels?topic=* (channels of all topics, one entry per (topic, channel)) and GET /lookup?topic=*:
+        404 iff no topic; an nsqd MUST be listed when it is live, recent, registered for a topic and tombstoned for
+        none of its topics; it MAY be listed only when it is live, recent and not tombstoned for some topic of its."""
+        j = lambda xs: ",".join(sorted(xs))
+        cs = "C[*]=" + j(s_(x[1]) for x in self.known_chan)
+        if not self.known_topic:
+            return "qstar %s L[*]=404" % cs
+        body = obs_tok[4:] if obs_tok.startswith("obs=") else "?"
+        try:
+            obs = set() if body == "-" else {int(x) for x in body.split(",")}
+        except ValueError:
+            return "bad-op"
+        must, may = set(), set()
+        for p in self.live:
+            ts = [t for (q, t) in self.topic_reg if q == p]
+            if not ts or not self.recent(p, now):
+                continue
+            flags = [self.tomb_active(p, t, now) for t in ts]
+            if not all(flags):
+                may.add(p)
+            if not any(flags):
+                must.add(p)
+        self.stats["lookup*"] += 1
+        if must != may:
+            self.stats["lookup* with a real choice (must != may)"] += 1
+        if not (must <= obs <= may):
+            return "qstar %s L[*]=not-allowed: listed %s ; must list %s ; may list %s" % (cs, sorted(obs), sorted(must), sorted(may))
+        return "qstar %s L[*]=ch=%s;pr=%s" % (cs, j(s_(x[1]) for x in self.known_chan), j(self.info_str(p) for p in obs))
+
     # -- one line of the E4 protocol; returns the predicted answer line or None (line kind not covered)
     def line(self, l):
         w = l.split()
@@ -383,9 +445,13 @@ class PySpec:
                 return None
             self.disconnect(p_)
             out = "aborted"
+        elif k == "http" and w[2] == "tombstone" and opt(w[4]) == b"*" and len(w) > 7:
+            out = self.tombstone_star(w[3] == "1", opt(w[6]), w[7], now)
+        elif k == "qstar":
+            out = self.qstar(w[2] if len(w) > 2 else "", now)
         elif k == "http":
-            if opt(w[4]) == b"*" and w[2] == "tombstone":
-                return None
+            if opt(w[4]) == b"*" and w[2] == "tombstone" and w[3] != "1" and opt(w[6]) is not None:
+                return None      # wild-card tombstone without the observed pick: cannot be judged
             out = self.http(w[2], w[3] == "1", opt(w[4]), opt(w[5]), opt(w[6]), now)
         else:
             return None
